@@ -820,6 +820,49 @@ class _Sha256Model:
     name = "sha256"
 
 
+import hmac as _hmac
+
+
+class _HmacModel:
+    """hmac.new(key, msg, digestmod): HMAC as an uninterpreted function of (digest name, key, message)"""
+
+    def __init__(self, key, msg=None, digestmod=None):
+        if digestmod is None:
+            raise TypeError("Missing required parameter 'digestmod'.")
+        self._key = key
+        self._msg = b""
+        self._dm = digestmod
+        probe = digestmod() if callable(digestmod) else _hashlib.new(digestmod)
+        self.digest_size = probe.digest_size
+        self.name = "hmac-" + probe.name
+        if msg is not None:
+            self.update(msg)
+
+    def update(self, d):
+        if isinstance(self._msg, Rope) or isinstance(d, (Rope, MutRope)):
+            self._msg = Rope.of(self._msg) + Rope.of(d)
+        else:
+            self._msg = self._msg + bytes(d)
+
+    def digest(self):
+        k = self._key.concrete() if isinstance(self._key, Rope) else self._key
+        m = self._msg.concrete() if isinstance(self._msg, Rope) else self._msg
+        if k is not None and m is not None and not getattr(self._dm, "_pyvc_abstract", False):
+            return _hmac.new(bytes(k), bytes(m), self._dm if not callable(self._dm) else self._dm().name).digest()
+        return Rope([F("HMAC|" + self.name, (Rope.of(self._key), Rope.of(self._msg)), z3.IntVal(self.digest_size))])
+
+    def hexdigest(self):
+        return self.digest().hex()
+
+
+def make_hmac_module():
+    m = types.ModuleType("hmac")
+    m.__dict__.update(_hmac.__dict__)
+    m.new = _HmacModel
+    m.HMAC = _HmacModel
+    return m
+
+
 def make_hashlib_module():
     m = types.ModuleType("hashlib")
     m.__dict__.update(_hashlib.__dict__)
@@ -882,6 +925,11 @@ class HexText:
         if c.branch(self.t < 0):
             raise Undecided("hex text of a negative int")
         n = 1
+        if self.width > 0:
+            # zero-padded: every magnitude below 16^width has exactly `width` digits (one fork, not one per digit)
+            if c.branch(self.t < z3.IntVal(16 ** self.width)):
+                return self.width + self.pad
+            n = self.width + 1
         while n < 400:
             if c.branch(self.t < z3.IntVal(16 ** n)):
                 break
